@@ -45,6 +45,11 @@ Logger::~Logger()
 {
     QTLOGGER_VERIF_POINT("logger.dtor");
 #ifndef QTLOGGER_NO_THREAD
+    // Stop the logger thread while this is still a complete Logger: the thread itself may be
+    // logging through the message handler (Qt warns "QEventLoop: Cannot be used without
+    // QApplication" when it starts without an application object) and must not get hold of an
+    // object whose Logger part is already destroyed
+    resetOwnThread();
     g_activeLogger.testAndSetOrdered(this, nullptr);
 #else
     if (g_activeLogger == this) {
